@@ -426,3 +426,130 @@ Proof.
   - intros s Hs. apply in_map_iff in Hs as (n & <- & Hin).
     destruct (Hn n Hin) as (tr & _ & R). eapply contiguous_finalization; eauto.
 Qed.
+
+(** * The executable checkers are sound for the named hypotheses *)
+Lemma kind_eqb_refl k : kind_eqb k k = true.
+Proof. destruct k; reflexivity. Qed.
+
+Lemma correctb_ok byz v : correctb byz v = true <-> correct byz v.
+Proof. unfold correctb, correct. rewrite negb_true_iff. tauto. Qed.
+
+Lemma a1b_ok byz V : a1b byz V = true -> A1 byz V.
+Proof.
+  unfold a1b, A1. rewrite forallb_forall. intros H v w Hv Hw Cv Ek Eh Er Es.
+  specialize (H v Hv). apply orb_true_iff in H as [H|H].
+  - apply negb_true_iff in H. apply correctb_ok in Cv. congruence.
+  - rewrite forallb_forall in H. specialize (H w Hw). apply orb_true_iff in H as [H|H].
+    + apply negb_true_iff in H. rewrite Ek, Eh, Er, Es, kind_eqb_refl, !N.eqb_refl in H. discriminate.
+    + apply N.eqb_eq. exact H.
+Qed.
+
+Lemma a2b_ok vals byz V : a2b vals byz V = true -> A2 vals byz V.
+Proof.
+  unfold a2b, A2. rewrite forallb_forall. intros H v Hv Cv Ek Hb.
+  specialize (H v Hv). rewrite !orb_true_iff in H. destruct H as [[[H|H]|H]|H].
+  - apply negb_true_iff in H. apply correctb_ok in Cv. congruence.
+  - apply negb_true_iff in H. rewrite Ek in H. discriminate.
+  - apply N.eqb_eq in H. contradiction.
+  - exact H.
+Qed.
+
+Lemma rounds_between_in lo hi r : In r (rounds_between lo hi) -> lo <= r /\ r < hi.
+Proof.
+  unfold rounds_between. rewrite in_map_iff. intros (i & <- & Hi). apply in_seq in Hi. lia.
+Qed.
+
+Lemma a3b_ok vals byz V : a3b vals byz V = true -> A3 vals byz V.
+Proof.
+  unfold a3b, A3. rewrite forallb_forall.
+  intros H v w Hv Hw Cv Ekv Ekw Es Eh Hbv Hbw Hne Hlt.
+  specialize (H v Hv). rewrite !orb_true_iff in H. destruct H as [[[H|H]|H]|H].
+  - apply negb_true_iff in H. apply correctb_ok in Cv. congruence.
+  - apply negb_true_iff in H. rewrite Ekv in H. discriminate.
+  - apply N.eqb_eq in H. contradiction.
+  - rewrite forallb_forall in H. specialize (H w Hw). apply orb_true_iff in H as [H|H].
+    + apply negb_true_iff in H. exfalso. rewrite Ekw, <- Es, <- Eh in H.
+      rewrite !N.eqb_refl in H. simpl in H.
+      destruct (N.eqb_spec (v_block w) 0) as [|_]; [contradiction|].
+      destruct (N.eqb_spec (v_block w) (v_block v)) as [|_]; [contradiction|].
+      destruct (N.ltb_spec (v_round v) (v_round w)) as [_|]; [|lia].
+      simpl in H. discriminate.
+    + apply existsb_exists in H as (r & Hr & Q). apply rounds_between_in in Hr.
+      exists r. tauto.
+Qed.
+
+Lemma vote_eqb_eq v w : vote_eqb v w = true -> v = w.
+Proof.
+  destruct v, w. unfold vote_eqb. simpl.
+  rewrite !andb_true_iff, kind_eqb_eq, !N.eqb_eq. intros ((((-> & ->) & ->) & ->) & ->). reflexivity.
+Qed.
+
+Lemma authenticb_ok byz V tr : authenticb byz V tr = true -> authentic byz V tr.
+Proof.
+  unfold authenticb, authentic, vote_auth. rewrite forallb_forall. intros H v Hv Cv.
+  specialize (H _ Hv). simpl in H. apply orb_true_iff in H as [H|H].
+  - apply negb_true_iff in H. apply correctb_ok in Cv. congruence.
+  - apply existsb_exists in H as (w & Hw & E). apply vote_eqb_eq in E. subst. exact Hw.
+Qed.
+
+(** * The hypotheses are satisfiable: a concrete 4-validator history (powers 3,3,3,4; validator 3
+      Byzantine with power 4 < ByzantineMinority(13) = 5) in which the Byzantine validator equivocates
+      in prevotes and precommits, a correct validator locks on block 11 in round 0, the network moves
+      to block 22 in round 1, the locked validator follows in round 2 (lock rule, via the round-1
+      quorum), and two nodes finalize (1,22),(2,33) from different rounds' certificates - one of them
+      across a restart. *)
+Definition ex_vals : N -> list N := fun _ => [3; 3; 3; 4].
+Definition ex_byz : N -> N := fun _ => 8.
+Definition pv := mkVote Prevote.
+Definition pc := mkVote Precommit.
+Definition ex_V : list vote :=
+  [ (* height 1, round 0 *)
+    pv 1 0 11 0; pv 1 0 11 1; pv 1 0 11 2; pv 1 0 11 3; pv 1 0 22 3;
+    pc 1 0 11 0; pc 1 0 0 1; pc 1 0 0 2; pc 1 0 11 3; pc 1 0 0 3;
+    (* round 1: validator 0 is locked on 11; 1, 2 and the Byzantine validator move to 22 *)
+    pv 1 1 11 0; pv 1 1 22 1; pv 1 1 22 2; pv 1 1 22 3; pv 1 1 11 3;
+    pc 1 1 0 0; pc 1 1 22 1; pc 1 1 22 2; pc 1 1 22 3;
+    (* round 2: validator 0 may now prevote 22 (quorum for 22 in round 1) *)
+    pv 1 2 22 0; pv 1 2 22 1; pv 1 2 22 2;
+    pc 1 2 22 0; pc 1 2 22 1; pc 1 2 22 2;
+    (* height 2 *)
+    pv 2 0 33 0; pv 2 0 33 1; pv 2 0 33 2;
+    pc 2 0 33 0; pc 2 0 33 1; pc 2 0 33 2; pc 2 0 33 3; pc 2 0 44 3 ].
+
+Definition ex_trX : list event :=
+  [ Deliver (pc 1 1 22 1); Deliver (pc 1 1 22 2); Deliver (pc 1 1 22 3);
+    Deliver (pc 1 1 11 3) (* a Byzantine vote nobody recorded *);
+    Finalize 1 22; Enter 2;
+    Deliver (pc 2 0 33 1); Deliver (pc 2 0 33 0); Deliver (pc 2 0 33 0); Deliver (pc 2 0 33 2);
+    Finalize 0 33 ].
+
+Definition ex_trY : list event :=
+  [ Deliver (pc 1 0 11 0); Deliver (pc 1 0 11 3); Restart;
+    Deliver (pc 1 2 22 2); Deliver (pc 1 2 22 0); Deliver (pc 1 2 22 1); Deliver (pc 1 2 22 1);
+    Finalize 2 22; Enter 2;
+    Deliver (pc 2 0 44 3); Deliver (pc 2 0 33 3); Deliver (pc 2 0 33 1); Deliver (pc 2 0 33 2);
+    Finalize 0 33 ].
+
+Example hypotheses_satisfiable :
+  (forall h, valset_ok (ex_vals h) (ex_byz h)) /\
+  A1 ex_byz ex_V /\ A2 ex_vals ex_byz ex_V /\ A3 ex_vals ex_byz ex_V /\
+  authentic ex_byz ex_V ex_trX /\ authentic ex_byz ex_V ex_trY /\
+  (exists nX nY, run ex_vals (init_node 1) ex_trX = Some nX /\
+                 run ex_vals (init_node 1) ex_trY = Some nY /\
+                 stream_of nX = [(1, 22); (2, 33)] /\ stream_of nY = [(1, 22); (2, 33)]) /\
+  (* the Byzantine validator equivocates *)
+  (In (pv 1 0 11 3) ex_V /\ In (pv 1 0 22 3) ex_V /\ In (pc 2 0 33 3) ex_V /\ In (pc 2 0 44 3) ex_V) /\
+  (* guards refuse: a finalize without a quorum, and an entrance before finalizing *)
+  run ex_vals (init_node 1) [Deliver (pc 1 0 11 0); Deliver (pc 1 0 11 3); Finalize 0 11] = None /\
+  run ex_vals (init_node 1) [Enter 2] = None.
+Proof.
+  split; [intros h; apply valset_okb_ok; vm_compute; reflexivity|].
+  split; [apply a1b_ok; vm_compute; reflexivity|].
+  split; [apply a2b_ok; vm_compute; reflexivity|].
+  split; [apply a3b_ok; vm_compute; reflexivity|].
+  split; [apply authenticb_ok; vm_compute; reflexivity|].
+  split; [apply authenticb_ok; vm_compute; reflexivity|].
+  split; [eexists; eexists; vm_compute; repeat split; reflexivity|].
+  split; [vm_compute; tauto|].
+  split; vm_compute; reflexivity.
+Qed.
